@@ -269,6 +269,7 @@ fn explore(ctx: &mut Ctx, cfg: &Cfg, depth_cap: usize) {
     frontier.push_back(vec![]);
     let mut max_depth = 0;
     let mut capped = false;
+    let mut violations_here = 0u32;
     while let Some(h) = frontier.pop_front() {
         if h.len() >= depth_cap {
             capped = true;
@@ -282,16 +283,27 @@ fn explore(ctx: &mut Ctx, cfg: &Cfg, depth_cap: usize) {
                 ctx.rep.evaluations += 1;
                 ctx.rep.nontrivial += 1;
                 ctx.rep.transitions += 1;
+                let mut violated = false;
                 if let Some((sig, detail)) = judge(cfg, &toks, &got) {
                     let (g2, _) = exec(cfg, &file, &h2);
                     if g2 != got {
                         ctx.rep.machinery(format!("nondeterministic run: {} / {}", cfg.describe(), hist_str(&h2)));
                     } else {
                         ctx.rep.violation(&sig, format!("config {} ; history [{}] (argv xargs {:?})\n {detail}", cfg.describe(), hist_str(&h2), cfg.argv("FILE")), case_json(cfg, &h2));
+                        violated = true;
+                        violations_here += 1;
                     }
                 }
                 ctx.rep.class(&format!("status={:?} batches={}", got.code.as_ref().map(|c| *c).unwrap_or(101), got.inv.len().min(6)));
-                let dead = got.code != Ok(0);
+                // a history that already violates the property is not extended (its extensions
+                // would only repeat it), and a configuration with many violating histories is
+                // abandoned: the state space of broken code need not be finite
+                let dead = got.code != Ok(0) || violated;
+                if violations_here >= 200 {
+                    ctx.rep.count("configs_abandoned_after_200_violating_histories", 1);
+                    ctx.rep.states += seen.len() as u64;
+                    return;
+                }
                 let key = Key { snap: got.snaps.last().cloned(), last_term: ti, dead };
                 if seen.insert(key) {
                     max_depth = max_depth.max(h2.len());
